@@ -16,6 +16,10 @@ use md5::{Digest, Md5};
 
 pub use self::{file_definition::FileDefinition, record::Record};
 
+#[cfg(noodles_verif)]
+#[doc(hidden)]
+pub mod verif_enc;
+
 /// Thin wrappers around crate-private codecs and integer codings for the verification harness.
 #[cfg(noodles_verif)]
 #[doc(hidden)]
